@@ -46,8 +46,10 @@ def evaluate(prop, cases, workdir, tag):
         c["id"] = i
         c.setdefault("include", None)
         c.setdefault("want_text", False)
+        if getattr(prop, "VALIDATE_MIX", False) and i % 3 == 1 and "validate" not in c["opts"]:
+            c["opts"]["validate"] = True      # every third case goes through naga's validator as well (it must only gate)
     try:
-        plain = [{k: c[k] for k in ("id", "wgsl", "include", "opts", "want_text")} for c in cases]
+        plain = [{k: c[k] for k in ("id", "wgsl", "include", "opts", "want_text", "want_toks") if k in c} for c in cases]
         if hasattr(prop, "run_cases"):
             results = prop.run_cases(plain, cases, workdir, tag)
         else:
@@ -71,6 +73,9 @@ def evaluate(prop, cases, workdir, tag):
         if real is None:
             if hasattr(prop, "verdict_expr_noout"):
                 defs = "Definition ir_%d : module := %s." % (c["id"], r["ir"])
+                if c.get("want_toks"):
+                    defs += "\nDefinition toks_%d : option (list tok) := %s." % (
+                        c["id"], ("(Some %s)" % r["toks"]) if r.get("toks") else "None")
                 expr = prop.verdict_expr_noout(c, r, "ir_%d" % c["id"])
                 if expr is not None:        # None: this case has no other observation to decide (b) with
                     items.append((c["id"], defs, expr))
@@ -80,7 +85,14 @@ def evaluate(prop, cases, workdir, tag):
             continue
         defs = "Definition ir_%d : module := %s.\nDefinition real_%d : result out := %s." % (
             c["id"], r["ir"], c["id"], real)
-        items.append((c["id"], defs, prop.verdict_expr(c, r, "ir_%d" % c["id"], "real_%d" % c["id"])))
+        if c.get("want_toks"):
+            defs += "\nDefinition toks_%d : option (list tok) := %s." % (
+                c["id"], ("(Some %s)" % r["toks"]) if r.get("toks") else "None")
+        expr = prop.verdict_expr(c, r, "ir_%d" % c["id"], "real_%d" % c["id"])
+        if c["opts"].get("validate") and getattr(prop, "VALIDATE_MIX", False):
+            # validation only gates: the model behind a validated call is the same generator behind the validator's verdict
+            expr = expr.replace("(gen ir_%d " % c["id"], "(genv true %s ir_%d " % ("false" if r.get("valid") is False else "true", c["id"]))
+        items.append((c["id"], defs, expr))
     verdicts, errors = run_coq_cases(items, prop.REQUIRES, os.path.join(workdir, tag + "_coq"))
     for rec in recs:
         if rec["skip"] is None:
@@ -217,6 +229,7 @@ def main(prop_name, tier, seed, replay=None):
         # the witnesses of the listed known findings run first, as a corpus
         wit = [{"wgsl": k["witness"]["wgsl"], "include": k["witness"].get("include"),
                 "opts": dict(k["witness"].get("opts", {})), "family": "known_finding_witness",
+                **({"want_toks": True} if getattr(prop, "WANT_TOKS", False) else {}),
                 **(prop.witness_case(k) if hasattr(prop, "witness_case") else {})}
                for k in load_known_findings()
                if k.get("property") == prop.ID and k.get("status") == "open" and k.get("witness")]
